@@ -160,6 +160,30 @@ func mergeAlts(alts []alt) value {
 			return alts[0].v
 		}
 	}
+	if t0, ok := alts[0].v.(*term); ok && t0.w == 8 {
+		allB := true
+		for _, a := range alts {
+			switch x := a.v.(type) {
+			case int64:
+				if x < 0 || x > 255 {
+					allB = false
+				}
+			case *term:
+				if x.w != 8 {
+					allB = false
+				}
+			default:
+				allB = false
+			}
+		}
+		if allB {
+			t := asBV8(alts[len(alts)-1].v)
+			for i := len(alts) - 2; i >= 0; i-- {
+				t = mkIte(alts[i].g, asBV8(alts[i].v), t)
+			}
+			return t
+		}
+	}
 	switch alts[0].v.(type) {
 	case bool, *term, *tab:
 		isBool := true
@@ -184,6 +208,30 @@ func mergeAlts(alts []alt) value {
 				ds = append(ds, mkAnd(a.g, asBool(a.v)))
 			}
 			return boolVal(mkOr(ds...))
+		}
+	case int64:
+		// bytes: if-then-else chain
+		isByte := true
+		for _, a := range alts {
+			switch x := a.v.(type) {
+			case int64:
+				if x < 0 || x > 255 {
+					isByte = false
+				}
+			case *term:
+				if x.w != 8 {
+					isByte = false
+				}
+			default:
+				isByte = false
+			}
+		}
+		if isByte {
+			t := asBV8(alts[len(alts)-1].v)
+			for i := len(alts) - 2; i >= 0; i-- {
+				t = mkIte(alts[i].g, asBV8(alts[i].v), t)
+			}
+			return t
 		}
 	case tuple:
 		n := len(alts[0].v.(tuple))
